@@ -406,7 +406,7 @@ impl Check for C11 {
         };
         let mut queries = vec![];
         for (i, (name, _)) in case.roots.iter().enumerate() {
-            queries.push(json!({"q":"validateMany","parser":name,"values": case.values[i].iter().map(|(v,_)| v.to_tagged()).collect::<Vec<_>>(), "optsList":[null, {"strict": true}]}));
+            queries.push(json!({"q":"validateMany","parser":name,"values": case.values[i].iter().map(|(v,_)| v.to_tagged()).collect::<Vec<_>>(), "optsList":[null, {"strict": true}], "sameObject": true}));
         }
         let resp = match node_case(ctx, Some(&code), queries) {
             Ok(r) => r,
@@ -425,6 +425,18 @@ impl Check for C11 {
                 return Outcome::infra(format!("no matrix: {}", resp["results"][i]));
             }
             let is_inter = matches!(open.head(d), D::Inter(_));
+            if let Some(idp) = resp["results"][i]["identity"].as_array() {
+                out.evals += 2 * case.values[i].len() as u64;
+                if let Some(first) = idp.first() {
+                    let vi = first["value"].as_u64().unwrap_or(0) as usize;
+                    out.mismatch(
+                        ctx,
+                        "c11_answer_depends_on_earlier_calls",
+                        format!("{}: the same object validated under default and strict options in turn gets another answer than a fresh copy does ({})", name, first),
+                        json!({"program": case.program, "parser": name, "value": case.values[i].get(vi).map(|x| &x.0), "detail": first}),
+                    );
+                }
+            }
             for (j, (v, src)) in case.values[i].iter().enumerate() {
                 let (g_open, g_strict) = match (m[j][0].as_i64(), m[j][1].as_i64()) {
                     (Some(a), Some(b)) => (a == 1, b == 1),
